@@ -25,6 +25,9 @@ type CaseC07 struct {
 	Other    ref.Hex `json:"other_pkt"`
 	Probe    []int   `json:"probe"`    // PIDs to classify with IsPMT
 	CutTail  int     `json:"cut_tail"` // for the not-found clause: bytes of a truncated last packet
+	// Later, when set, is another PAT sent in a second PID-0 packet further down the stream (a table update, or the
+	// next section of a multi-section table): the table reported is the one in the first PID-0 packet.
+	Later *ref.PAT `json:"later_pat,omitempty"`
 }
 
 func genC07(t *rapid.T) CaseC07 {
@@ -75,6 +78,24 @@ func genC07(t *rapid.T) CaseC07 {
 	}
 	if c.PAT.Entries == nil {
 		c.PAT.Entries = []ref.PATEntry{}
+	}
+	if rapid.IntRange(0, 3).Draw(t, "multi-section") == 0 {
+		c.PAT.LastSecNum = int(genBits(t, 8, "last-section-number"))
+		c.PAT.SecNum = rapid.IntRange(0, c.PAT.LastSecNum).Draw(t, "section-number")
+	}
+	if c.Carrier == "stream" && rapid.IntRange(0, 2).Draw(t, "later-pat") == 0 {
+		l := ref.PAT{TSID: c.PAT.TSID, Version: (c.PAT.Version + rapid.IntRange(0, 1).Draw(t, "later-version")) & 31, CurrentNext: rapid.IntRange(0, 3).Draw(t, "later-cn") != 0, LastSecNum: c.PAT.LastSecNum}
+		if c.PAT.LastSecNum > 0 {
+			l.SecNum = rapid.IntRange(0, c.PAT.LastSecNum).Draw(t, "later-section-number")
+		}
+		ln := rapid.IntRange(0, 4).Draw(t, "later-n")
+		for i := 0; i < ln; i++ {
+			l.Entries = append(l.Entries, ref.PATEntry{Program: uint16(1 + rapid.IntRange(0, 0xFFFE).Draw(t, "later-program")), PID: int(genBits(t, 13, "later-pid"))})
+		}
+		if l.Entries == nil {
+			l.Entries = []ref.PATEntry{}
+		}
+		c.Later = &l
 	}
 	c.Trailing = rapid.SampledFrom([]int{0, 0, 1, 5, 60}).Draw(t, "trailing")
 	c.Before = rapid.IntRange(0, 5).Draw(t, "before")
@@ -206,6 +227,16 @@ func checkC07(c CaseC07, x *hx.Ctx) *hx.Failure {
 		for i := 0; i < c.After; i++ {
 			stream = append(stream, c.Other...)
 		}
+		if c.Later != nil {
+			x.Label("second-pid0-packet-later")
+			lp, err := ref.Packetise(append([]byte{0}, c.Later.Section()...), 0, 4, []int{184})
+			if err != nil {
+				return hx.Failf("bad-case", "packetise later PAT: %v", err)
+			}
+			lb := lp[0].MustBytes()
+			stream = append(stream, lb[:]...)
+			stream = append(stream, c.Other...)
+		}
 		r := bytes.NewReader(stream)
 		pat, err := psi.ReadPAT(r)
 		if err != nil {
@@ -231,7 +262,7 @@ func checkC07(c CaseC07, x *hx.Ctx) *hx.Failure {
 var propC07 = hx.Register(hx.Prop[CaseC07]{ID: "C07", Gen: genC07, Check: checkC07})
 
 func c07Rule() {
-	hx.Rec("C07").SetRule("cases: a reference-model PAT with 0..253 entries (payload carrier) or 0..42 (packet and stream carriers), distinct program numbers, with probability 1/4 a network entry (program 0) at a drawn position, PIDs biased to > 255 and 0x1FFF, arbitrary transport_stream_id/version; carried as payload bytes (optional trailing stuffing), as a 188-byte packet (payload-side padding or adaptation-field stuffing), or in a stream after 0..5 packets of other PIDs and before 0..2 more. Oracle: the model (entry count, exact program map, single-program accessor, IsPMT for map values/neighbours/drawn PIDs, nil PAT, not-found on streams without a PID-0 packet incl. a truncated last packet). Enumerated: every entry count 0..253 (payload) and 0..42 (packet, packet-af, stream) with and without a network entry. Non-trivial: entry count not in {1,2}, or a network entry, or a PID > 255, or a non-zero stream offset.",
+	hx.Rec("C07").SetRule("cases: a reference-model PAT with 0..253 entries (payload carrier) or 0..42 (packet and stream carriers), distinct program numbers, with probability 1/4 a network entry (program 0) at a drawn position, PIDs biased to > 255 and 0x1FFF, arbitrary transport_stream_id/version; carried as payload bytes (optional trailing stuffing), as a 188-byte packet (payload-side padding or adaptation-field stuffing), or in a stream after 0..5 packets of other PIDs and before 0..2 more, optionally followed by a second, different PID-0 packet (table update or another section_number; section_number/last_section_number/current_next drawn freely). Oracle: the model (entry count, exact program map, single-program accessor, IsPMT for map values/neighbours/drawn PIDs, nil PAT, not-found on streams without a PID-0 packet incl. a truncated last packet). Enumerated: every entry count 0..253 (payload) and 0..42 (packet, packet-af, stream) with and without a network entry. Non-trivial: entry count not in {1,2}, or a network entry, or a PID > 255, or a non-zero stream offset.",
 		"pointer_field 0 only; distinct program numbers")
 }
 
